@@ -3829,6 +3829,18 @@ impl Machine {
                                         }
                                     }
                                     None => {
+                                        // no clause of the sequence is alive any more. The
+                                        // choice point that brought us back here was kept for
+                                        // an applicable clause that has since turned out dead:
+                                        // discard it, or backtracking re-enters it for ever.
+                                        if let FirstOrNext::Next = self.machine_st.dynamic_mode {
+                                            let b = self.machine_st.b;
+
+                                            self.machine_st.b =
+                                                self.machine_st.stack.index_or_frame(b).prelude.b;
+                                            self.machine_st.stack.truncate(b);
+                                        }
+
                                         self.machine_st.fail = true;
                                     }
                                 }
